@@ -188,6 +188,8 @@ func runC07(c *Ctx) {
 		}
 	}
 
+	pureScan(c, "C07.pure.no-package-state", c.P.Func("pkg/ed25519", "Sign"), c.P.Func("pkg/ed25519", "NewKeyFromSeed"), c.P.Func("pkg/ed25519", "PrivateKey.Sign"), c.P.Func("pkg/ed25519", "Verify"), c.P.Func("pkg/ed25519", "GenerateKey"))
+
 	// --- determinism (call graph)
 	c07Deterministic(c)
 }
